@@ -58,7 +58,7 @@ const fn resp_layout(uid: usize, cookie: usize) -> Layout {
 /// `c25_req_real_serializer` shows that `NtpPacket::serialize` of `nts_poll_message` produces
 /// exactly this image (the generic serializer is too expensive to run inside every tamper harness:
 /// its field vectors live on the heap, where CBMC loses all constants).
-fn assemble_request<const UID: usize, const COOKIE: usize>(hdr: &[u8; 48], uid: &[u8; UID], cookie: &[u8; COOKIE], trailer: [u8; 4]) -> [u8; B] {
+fn assemble_request<const UID: usize, const COOKIE: usize>(hdr: &[u8; 48], uid: &[u8; UID], cookie: &[u8; COOKIE], trailer: [u8; 4], real_encoder: bool) -> [u8; B] {
     let lay = req_layout(UID, COOKIE);
     let mut out = [0u8; B];
     out[..48].copy_from_slice(hdr);
@@ -68,12 +68,24 @@ fn assemble_request<const UID: usize, const COOKIE: usize>(hdr: &[u8; 48], uid: 
     out[0] = 0x23;
     pin_ef(&mut out, 48, T_UID, (4 + UID) as u16);
     pin_ef(&mut out, 52 + UID, T_COOKIE, (4 + COOKIE) as u16);
-    {
+    if real_encoder {
         let mut cur = std::io::Cursor::new(&mut out[..lay.end]);
         cur.set_position(lay.nts as u64);
         let r = ntp_proto::verif::packet::extension_fields::encode_encrypted_hook(&mut cur, &[], &ModelCipher::new(0), ntp_proto::ExtensionHeaderVersion::V4);
         assert!(r.is_ok(), "authenticator encoded");
         assert!(cur.position() as usize == lay.end, "authenticator has the RFC 8915 size");
+    } else {
+        // RFC 8915 5.6 by hand: type, length, nonce length, ciphertext length, nonce, ciphertext
+        // (= tag: nothing is encrypted in a request); the ideal AEAD has "really encrypted" exactly
+        // this with everything before the field as associated data
+        pin_ef(&mut out, lay.nts, T_NTS, (lay.end - lay.nts) as u16);
+        pin16(&mut out, lay.nts + 4, NONCE_LEN as u16);
+        pin16(&mut out, lay.nts + 6, TAG_LEN as u16);
+        let (nonce, tag) = unsafe { (ENC_NONCE, ENC_TAG) };
+        out[lay.nonce..lay.nonce + NONCE_LEN].copy_from_slice(&nonce);
+        out[lay.ct..lay.ct + TAG_LEN].copy_from_slice(&tag);
+        let (aad, rest) = out.split_at(lay.nts);
+        model_log(0, aad, &nonce, &rest[8 + NONCE_LEN..8 + NONCE_LEN + TAG_LEN]);
     }
     // the authenticator as the RFC lays it out (independent check of the encoder)
     assert!(get16(&out, lay.nts) == T_NTS, "authenticator type");
@@ -85,7 +97,7 @@ fn assemble_request<const UID: usize, const COOKIE: usize>(hdr: &[u8; 48], uid: 
 
 /// The valid response image: header (byte 0 = 0xE4: leap 3, version 4, server), unique id field,
 /// authenticator written by the real `encode_encrypted` over one new cookie.
-fn assemble_response<const UID: usize, const COOKIE: usize>(hdr: &[u8; 48], uid: &[u8; UID], cookie: &[u8; COOKIE], trailer: [u8; 4]) -> [u8; B] {
+fn assemble_response<const UID: usize, const COOKIE: usize>(hdr: &[u8; 48], uid: &[u8; UID], cookie: &[u8; COOKIE], trailer: [u8; 4], real_encoder: bool) -> [u8; B] {
     let lay = resp_layout(UID, COOKIE);
     let mut out = [0u8; B];
     out[..48].copy_from_slice(hdr);
@@ -93,7 +105,7 @@ fn assemble_response<const UID: usize, const COOKIE: usize>(hdr: &[u8; 48], uid:
     out[lay.end..lay.end + 4].copy_from_slice(&trailer);
     out[0] = RESP_B0;
     pin_ef(&mut out, 48, T_UID, (4 + UID) as u16);
-    {
+    if real_encoder {
         let enc = [Ef::NtsCookie(Cow::Borrowed(&cookie[..]))];
         let mut cur = std::io::Cursor::new(&mut out[..lay.end]);
         cur.set_position(lay.nts as u64);
@@ -101,6 +113,19 @@ fn assemble_response<const UID: usize, const COOKIE: usize>(hdr: &[u8; 48], uid:
         assert!(r.is_ok(), "authenticator encoded");
         assert!(cur.position() as usize == lay.end, "authenticator has the RFC 8915 size");
         std::mem::forget(enc);
+    } else {
+        let ct_len = 4 + COOKIE + TAG_LEN;
+        pin_ef(&mut out, lay.nts, T_NTS, (lay.end - lay.nts) as u16);
+        pin16(&mut out, lay.nts + 4, NONCE_LEN as u16);
+        pin16(&mut out, lay.nts + 6, ct_len as u16);
+        let (nonce, tag) = unsafe { (ENC_NONCE, ENC_TAG) };
+        out[lay.nonce..lay.nonce + NONCE_LEN].copy_from_slice(&nonce);
+        // ciphertext under the model = the plaintext (one cookie field) followed by the tag
+        out[lay.ct + 4..lay.ct + 4 + COOKIE].copy_from_slice(cookie);
+        out[lay.ct + 4 + COOKIE..lay.ct + ct_len].copy_from_slice(&tag);
+        pin_ef(&mut out, lay.ct, T_COOKIE, (4 + COOKIE) as u16);
+        let (aad, rest) = out.split_at(lay.nts);
+        model_log(1, aad, &nonce, &rest[8 + NONCE_LEN..8 + NONCE_LEN + ct_len]);
     }
     assert!(get16(&out, lay.nts) == T_NTS, "authenticator type");
     assert!(get16(&out, lay.nts + 2) as usize == lay.end - lay.nts, "authenticator length");
@@ -224,9 +249,9 @@ pharness! {
         let trailer: [u8; 4] = kani::any();
         let is_request: bool = kani::any();
         let (img, l, key) = if is_request {
-            (assemble_request(&hdr, &uid, &cookie, trailer), REQ, 0)
+            (assemble_request(&hdr, &uid, &cookie, trailer, false), REQ, 0)
         } else {
-            (assemble_response(&hdr, &uid, &cookie, trailer), RESP, 1)
+            (assemble_response(&hdr, &uid, &cookie, trailer, false), RESP, 1)
         };
         let exp = Expected { uid: &uid, cookie: &cookie, is_request };
         let r = decode(&img[..l.total], &ModelCipher::new(key));
@@ -256,7 +281,7 @@ fn request(lo: usize, hi: usize) -> u8 {
     let uid: [u8; U] = kani::any();
     let cookie: [u8; K] = kani::any();
     let trailer: [u8; 4] = kani::any();
-    let orig = assemble_request(&hdr, &uid, &cookie, trailer);
+    let orig = assemble_request(&hdr, &uid, &cookie, trailer, false);
     tamper(&orig, REQ, 0, lo, hi, &Expected { uid: &uid, cookie: &cookie, is_request: true })
 }
 
@@ -266,8 +291,41 @@ fn response(lo: usize, hi: usize) -> u8 {
     let uid: [u8; U] = kani::any();
     let cookie: [u8; K] = kani::any();
     let trailer: [u8; 4] = kani::any();
-    let orig = assemble_response(&hdr, &uid, &cookie, trailer);
+    let orig = assemble_response(&hdr, &uid, &cookie, trailer, false);
     tamper(&orig, RESP, 1, lo, hi, &Expected { uid: &uid, cookie: &cookie, is_request: false })
+}
+
+/// The hand-assembled authenticator (and ghost log entry) of the tamper images is exactly what the
+/// real `ExtensionField::encode_encrypted` + ModelCipher produce on the same prefix.
+pharness! {
+    #[kani::unwind(6)]
+    fn c25_auth_encoder() {
+        symbolic_model_randomness();
+        let hdr: [u8; 48] = kani::any();
+        let uid: [u8; U] = kani::any();
+        let cookie: [u8; K] = kani::any();
+        let is_request: bool = kani::any();
+        let (by_hand, l, key) = if is_request {
+            (assemble_request(&hdr, &uid, &cookie, [0; 4], false), REQ, 0usize)
+        } else {
+            (assemble_response(&hdr, &uid, &cookie, [0; 4], false), RESP, 1usize)
+        };
+        let hand_log = unsafe { LOG[key] };
+        symbolic_model_randomness_keep();
+        let real = if is_request {
+            assemble_request(&hdr, &uid, &cookie, [0; 4], true)
+        } else {
+            assemble_response(&hdr, &uid, &cookie, [0; 4], true)
+        };
+        let real_log = unsafe { LOG[key] };
+        assert!(by_hand[..l.end] == real[..l.end], "same bytes");
+        assert!(hand_log.valid && real_log.valid && hand_log.key == real_log.key, "one encryption under the same key");
+        assert!(hand_log.aad_len == real_log.aad_len && hand_log.aad == real_log.aad, "same associated data: everything before the field");
+        assert!(hand_log.nonce == real_log.nonce, "same nonce");
+        assert!(hand_log.ct_len == real_log.ct_len && hand_log.ct == real_log.ct, "same ciphertext");
+        kani::cover!(is_request, "request");
+        kani::cover!(!is_request, "response");
+    }
 }
 
 /// The public request constructor + the real `NtpPacket::serialize` produce exactly the image the
@@ -295,7 +353,7 @@ pharness! {
         hdr.copy_from_slice(&real[..48]);
         assert!(hdr[0] == 0x23, "poll message is an NTPv4 client packet");
         symbolic_model_randomness_keep();
-        let img = assemble_request(&hdr, &uid, &cookie, [0; 4]);
+        let img = assemble_request(&hdr, &uid, &cookie, [0; 4], true);
         assert!(real[..REQ.end] == img[..REQ.end], "serializer output == assembled image");
         kani::cover!(real[60] == 0x5A && real[140] == 0xA5, "arbitrary unique id and tag");
     }
@@ -328,7 +386,7 @@ pharness! {
         assert!(matches!(n, Ok(x) if x == RESP.end), "response has the RFC 8915 layout size");
         std::mem::forget(p);
         symbolic_model_randomness_keep();
-        let img = assemble_response(&hdr, &uid, &cookie, [0; 4]);
+        let img = assemble_response(&hdr, &uid, &cookie, [0; 4], true);
         assert!(real[..RESP.end] == img[..RESP.end], "serializer output == assembled image");
         kani::cover!(real[60] == 0x5A && real[140] == 0xA5, "arbitrary unique id and tag");
     }
@@ -378,7 +436,7 @@ pharness! {
         let uid: [u8; U] = kani::any();
         let cookie: [u8; K] = kani::any();
         let trailer: [u8; 4] = kani::any();
-        let orig = assemble_request(&hdr, &uid, &cookie, trailer);
+        let orig = assemble_request(&hdr, &uid, &cookie, trailer, false);
         let code = tamper_accepting(&orig, REQ, 0, &Expected { uid: &uid, cookie: &cookie, is_request: true });
         kani::cover!(code == ACC, "trailer change tolerated, same authenticated content");
     }
@@ -391,7 +449,7 @@ pharness! {
         let uid: [u8; U] = kani::any();
         let cookie: [u8; K] = kani::any();
         let trailer: [u8; 4] = kani::any();
-        let orig = assemble_response(&hdr, &uid, &cookie, trailer);
+        let orig = assemble_response(&hdr, &uid, &cookie, trailer, false);
         let code = tamper_accepting(&orig, RESP, 1, &Expected { uid: &uid, cookie: &cookie, is_request: false });
         kani::cover!(code == ACC, "trailer change tolerated, same authenticated content");
     }
